@@ -68,6 +68,7 @@ fn c09(seed: u64, tier: &str, thorough: bool) -> CheckPlan {
             json!({"script": id, "skip_events": prefix, "max_points": if thorough { 4000 } else { 400 }})));
     }
     for (label, prog) in templates::value_kinds() {
+        jobs.push(job("C09", "other_faults", derive(seed, &label, 2), tier, json!({"program": prog, "label": label, "max_points": if thorough { 200 } else { 24 }})));
         jobs.push(job("C09", "size_sweep", seed, tier, json!({"program": prog, "label": label, "skip_events": prefix, "max_points": 1500})));
         jobs.push(job("C09", "history", derive(seed, &label, 1), tier,
             json!({"program": prog, "label": label, "count": if thorough { 600 } else { 10 }, "funcs": ["main", "v_aux"]})));
@@ -84,6 +85,9 @@ fn c09(seed: u64, tier: &str, thorough: bool) -> CheckPlan {
                 jobs.push(job("C09", "size_sweep", seed, tier, json!({"program": crate::docsig::forcing_program_with_ballast(&call, &c.ret), "label": label, "finite": true, "skip_events": prefix, "max_points": if thorough { 3000 } else { 120 }})));
             }
         }
+    }
+    for id in corpus_ids(derive(seed, "c09other", 0), if thorough { usize::MAX } else { 40 }) {
+        jobs.push(job("C09", "other_faults", derive(seed, "c09other", 1), tier, json!({"script": id, "max_points": if thorough { 60 } else { 12 }})));
     }
     let hist_scripts = corpus_ids(derive(seed, "c09hist", 0), if thorough { usize::MAX } else { 24 });
     for (k, id) in hist_scripts.into_iter().enumerate() {
@@ -107,7 +111,7 @@ fn c09(seed: u64, tier: &str, thorough: bool) -> CheckPlan {
             "programs are the shipped scripts plus value-kind templates; enumeration is complete over their fault points, not over programs".into(),
         ],
         opts: SupOpts::default(),
-        required_probes: vec!["allocation_refused_runs".into(), "baseline_return_checked".into(), "payload_checked".into()],
+        required_probes: vec!["allocation_refused_runs".into(), "baseline_return_checked".into(), "payload_checked".into(), "balanced_after_other_violation".into()],
         exhaustive: false,
         extra: json!({"std_prefix_events_skipped_per_script": prefix}),
     }
@@ -440,7 +444,7 @@ fn c12(seed: u64, tier: &str, thorough: bool) -> CheckPlan {
             "no runtime exists during compilation, so 'never touches writer/clock/random source' holds by construction and is only recorded".into(),
         ],
         opts: SupOpts::default(),
-        required_probes: vec!["compile_time_hash_containers_seeded".into(), "compiled_after_other_compilations".into(), "scope_ids_skipped".into()],
+        required_probes: vec!["compile_time_hash_containers_seeded".into(), "compiled_after_other_compilations".into(), "scope_ids_skipped".into(), "compiled_after_rejected_texts_on_the_same_scope".into(), "instantiated_twice".into()],
         exhaustive: false,
         extra: json!({"environments_per_text": envs}),
     }
